@@ -55,23 +55,33 @@ type EP struct {
 	CertCallback bool `json:"certcb,omitempty"`
 	// ClientCAsMulti (server, with ClientCAs): the pool holds a further CA in front of CA1
 	ClientCAsMulti bool `json:"ccasmulti,omitempty"`
+	// FixedRandom: WithHelloRandomBytesGenerator returning the same 28 bytes every time (the option is
+	// documented for clients; a shared option, so it can be given to a server too)
+	FixedRandom bool `json:"fixedrandom,omitempty"`
 }
 
-// MemStore is a session store that records every call.
+// MemStore is a session store that records every call. Like the obvious application store (a map of
+// dtls.Session values) it keeps the slices it is given and hands the same slices back: it makes no
+// defensive copies. It remembers a private copy of every value at the time it was stored, so that a
+// later change of the stored bytes by somebody else (Tampered) can be told.
 type MemStore struct {
 	mu    sync.Mutex
 	M     map[string]dtls.Session
+	orig  map[string]dtls.Session
 	Calls []string
 }
 
 // NewMemStore creates an empty store.
-func NewMemStore() *MemStore { return &MemStore{M: map[string]dtls.Session{}} }
+func NewMemStore() *MemStore {
+	return &MemStore{M: map[string]dtls.Session{}, orig: map[string]dtls.Session{}}
+}
 
 // Set implements dtls.SessionStore.
 func (s *MemStore) Set(key []byte, v dtls.Session) error {
 	s.mu.Lock()
 	defer s.mu.Unlock()
-	s.M[string(key)] = dtls.Session{ID: bytes.Clone(v.ID), Secret: bytes.Clone(v.Secret)}
+	s.M[string(key)] = v
+	s.orig[string(key)] = dtls.Session{ID: bytes.Clone(v.ID), Secret: bytes.Clone(v.Secret)}
 	s.Calls = append(s.Calls, fmt.Sprintf("set %x", key))
 
 	return nil
@@ -87,7 +97,31 @@ func (s *MemStore) Get(key []byte) (dtls.Session, error) {
 		return dtls.Session{}, nil
 	}
 
-	return dtls.Session{ID: bytes.Clone(v.ID), Secret: bytes.Clone(v.Secret)}, nil
+	return v, nil
+}
+
+// Tampered lists the entries whose bytes are no longer what was stored (changed in place through a
+// slice shared with the store).
+func (s *MemStore) Tampered() []string {
+	s.mu.Lock()
+	defer s.mu.Unlock()
+	var out []string
+	for k, v := range s.M {
+		o := s.orig[k]
+		if !bytes.Equal(v.ID, o.ID) || !bytes.Equal(v.Secret, o.Secret) {
+			out = append(out, fmt.Sprintf("%x: secret %x.. was %x.. when stored", k, head(v.Secret), head(o.Secret)))
+		}
+	}
+
+	return out
+}
+
+func head(b []byte) []byte {
+	if len(b) > 6 {
+		return b[:6]
+	}
+
+	return b
 }
 
 // Del implements dtls.SessionStore.
@@ -96,6 +130,7 @@ func (s *MemStore) Del(key []byte) error {
 	defer s.mu.Unlock()
 	s.Calls = append(s.Calls, fmt.Sprintf("del %x", key))
 	delete(s.M, string(key))
+	delete(s.orig, string(key))
 
 	return nil
 }
@@ -381,6 +416,14 @@ func (ep *EP) shared(env *Env, role string) ([]dtls.Option, error) {
 	if ep.Padding > 0 {
 		p := uint(ep.Padding) //nolint:gosec
 		o = append(o, dtls.WithPaddingLengthGenerator(func(uint) uint { return p }))
+	}
+	if ep.FixedRandom {
+		o = append(o, dtls.WithHelloRandomBytesGenerator(func() [28]byte {
+			var b [28]byte
+			copy(b[:], "deterministic-hello-random!!")
+
+			return b
+		}))
 	}
 	if ep.NoVerify {
 		o = append(o, dtls.WithInsecureSkipVerify(true))
